@@ -21,12 +21,22 @@ pub struct Emit<'a> {
     answer: &'a dyn Fn(&str) -> String,
     pub classes: BTreeMap<String, u64>,
     pub count: u64,
+    /// `<out>.current`: the case falcon is answering right now, so that `check` can name the input when the whole
+    /// process dies (stack overflow, abort, allocation failure)
+    current: Option<std::fs::File>,
 }
 
 impl<'a> Emit<'a> {
     /// `class`: the shape of the case (used for finding signatures and the distribution report)
     pub fn case(&mut self, class: &str, req: String) {
         debug_assert!(!req.contains('\t') && !req.contains('\n'));
+        if let Some(f) = self.current.as_mut() {
+            use std::io::{Seek, SeekFrom};
+            let line = format!("{}\t{}\n", class, req);
+            let _ = f.seek(SeekFrom::Start(0));
+            let _ = f.write_all(line.as_bytes());
+            let _ = f.set_len(line.len() as u64);
+        }
         let ans = crate::canon::catch(|| (self.answer)(&req)).unwrap_or_else(|| "panic".to_string());
         writeln!(self.out, "{}\t{}\t{}", class, req, ans).unwrap();
         *self.classes.entry(class.to_string()).or_insert(0) += 1;
@@ -53,9 +63,11 @@ pub fn run_main(
             let out_path = get("--out").expect("--out FILE");
             let file = std::io::BufWriter::new(std::fs::File::create(&out_path).expect("create --out"));
             let mut rng = Rng::new(seed);
-            let mut emit = Emit { out: Box::new(file), answer, classes: BTreeMap::new(), count: 0 };
+            let current = std::fs::File::create(format!("{}.current", out_path)).ok();
+            let mut emit = Emit { out: Box::new(file), answer, classes: BTreeMap::new(), count: 0, current };
             generate(tier, &mut rng, &mut emit);
             emit.out.flush().unwrap();
+            let _ = std::fs::remove_file(format!("{}.current", out_path));
             if let Some(stats) = get("--stats") {
                 let mut f = std::fs::File::create(stats).unwrap();
                 let body: Vec<String> =
